@@ -176,20 +176,29 @@ func c09Stateful(c *Ctx) {
 	tokT := TVar(params[0])
 	var problems []string
 	nsucc := 0
+	// hasCall: the state holds (with polarity pos) `now<suffix>(*token.<field>)`, i.e. the
+	// field is the argument - or the same test written from the other side,
+	// `token.<field><mirror>(now)` with the field as the receiver
 	hasCall := func(st *State, pos bool, suffix string, field *types.Var) bool {
+		mirror := map[string]string{".After": ".Before", ".Before": ".After"}[suffix]
+		mentions := func(a *Term) bool {
+			hit := false
+			a.walk(func(x *Term) {
+				if x.K == 'f' && x.Obj == types.Object(field) {
+					hit = true
+				}
+			})
+			return hit
+		}
 		for _, f := range st.Facts() {
-			if f.Op == "true" && f.Pos == pos && f.A.K == 'k' && strings.HasSuffix(f.A.Name, suffix) {
-				hit := false
-				for _, a := range f.A.Args {
-					a.walk(func(x *Term) {
-						if x.K == 'f' && x.Obj == types.Object(field) {
-							hit = true
-						}
-					})
-				}
-				if hit {
-					return true
-				}
+			if f.Op != "true" || f.Pos != pos || f.A.K != 'k' || len(f.A.Args) != 2 {
+				continue
+			}
+			if strings.HasSuffix(f.A.Name, suffix) && mentions(f.A.Args[1]) && !mentions(f.A.Args[0]) {
+				return true
+			}
+			if mirror != "" && strings.HasSuffix(f.A.Name, mirror) && mentions(f.A.Args[0]) && !mentions(f.A.Args[1]) {
+				return true
 			}
 		}
 		return false
@@ -300,6 +309,7 @@ func c09JWT(c *Ctx) {
 	// jwt.Parse(..., WithExpirationRequired())
 	okExp := false
 	var keyFunc *ast.FuncLit
+	var keySrc *FuncSrc // the key function: a literal, or a declared function / method value
 	ast.Inspect(pj.Body(), func(n ast.Node) bool {
 		call, ok := n.(*ast.CallExpr)
 		if !ok {
@@ -317,21 +327,51 @@ func c09JWT(c *Ctx) {
 			}
 			if lit, ok := unparen(a).(*ast.FuncLit); ok {
 				keyFunc = lit
+				keySrc = p.SrcOfLit(lit)
+			}
+			// keySet(keys).lookup / lookupKeys: a declared function of the module
+			var fobj *types.Func
+			switch x := unparen(a).(type) {
+			case *ast.SelectorExpr:
+				if sel := info.Selections[x]; sel != nil && sel.Kind() == types.MethodVal {
+					fobj, _ = sel.Obj().(*types.Func)
+				}
+			case *ast.Ident:
+				fobj, _ = info.Uses[x].(*types.Func)
+			}
+			if fobj != nil && keySrc == nil {
+				if src := p.SrcOfFunc(fobj); src != nil && src.Decl != nil {
+					if sig, _ := fobj.Type().(*types.Signature); sig != nil && sig.Params().Len() == 1 && sig.Results().Len() == 2 {
+						keySrc = src
+					}
+				}
 			}
 		}
 		return true
 	})
 	c.Check(okExp, "R9.3", "signed tokens must carry an expiry", pj.Pos(), "jwt.Parse(..., jwt.WithExpirationRequired())", "tokens without exp are accepted")
-	if keyFunc == nil {
-		c.Bad("R9.3", "key function", pj.Pos(), "jwt.Parse is not given a key function literal")
+	_ = keyFunc
+	if keySrc == nil {
+		c.Bad("R9.3", "key function", pj.Pos(), "jwt.Parse is not given a key function of this module (a literal, a function or a method value)")
 	} else {
-		kfs := p.SrcOfLit(keyFunc)
+		kfs := keySrc
+		info := kfs.Pkg.TypesInfo
 		kff := p.Facts().Analyze(kfs)
 		// header alg/kid are handed to ParseKeys; empty alg rejected; returns only ParseKeys results
 		var pk *ast.CallExpr
-		ast.Inspect(keyFunc.Body, func(n ast.Node) bool {
+		ast.Inspect(kfs.Body(), func(n ast.Node) bool {
 			if call, ok := n.(*ast.CallExpr); ok && fnIs(calleeOf(&CallSite{Call: call, In: kfs}), "token", "", "ParseKeys") && len(call.Args) == 3 {
 				pk = call
+			}
+			return true
+		})
+		// the keys selected: result #0 of that call
+		var ksObj types.Object
+		ast.Inspect(kfs.Body(), func(n ast.Node) bool {
+			if as, ok := n.(*ast.AssignStmt); ok && len(as.Rhs) == 1 && pk != nil && unparen(as.Rhs[0]) == ast.Expr(pk) && len(as.Lhs) >= 1 {
+				if id, isId := as.Lhs[0].(*ast.Ident); isId {
+					ksObj = info.ObjectOf(id)
+				}
 			}
 			return true
 		})
@@ -345,7 +385,7 @@ func c09JWT(c *Ctx) {
 				}
 				obj := info.ObjectOf(id)
 				found := false
-				ast.Inspect(keyFunc.Body, func(n ast.Node) bool {
+				ast.Inspect(kfs.Body(), func(n ast.Node) bool {
 					as, ok := n.(*ast.AssignStmt)
 					if !ok || len(as.Rhs) != 1 {
 						return true
@@ -370,8 +410,8 @@ func c09JWT(c *Ctx) {
 				}
 			}
 		}
-		c.Check(okArgs, "R9.3", "key function selects keys by the header's alg and kid", keyFunc.Pos(), "ParseKeys(keys, t.Header[\"alg\"], t.Header[\"kid\"])", "keys are not selected by the algorithm and key id declared in the token header")
-		c.Check(okAlg, "R9.3", "key function rejects a missing algorithm", keyFunc.Pos(), "alg == \"\" is refused before ParseKeys", "a token without alg selects every key (algorithm confusion)")
+		c.Check(okArgs, "R9.3", "key function selects keys by the header's alg and kid", kfs.Pos(), "ParseKeys(keys, t.Header[\"alg\"], t.Header[\"kid\"])", "keys are not selected by the algorithm and key id declared in the token header")
+		c.Check(okAlg, "R9.3", "key function rejects a missing algorithm", kfs.Pos(), "alg == \"\" is refused before ParseKeys", "a token without alg selects every key (algorithm confusion)")
 		// returns: only values derived from ks (result of ParseKeys) or nil
 		okRet := true
 		for _, ret := range kff.Returns() {
@@ -380,7 +420,7 @@ func c09JWT(c *Ctx) {
 			}
 			usesKs := false
 			ast.Inspect(ret.Results[0], func(m ast.Node) bool {
-				if id, isId := m.(*ast.Ident); isId && id.Name == "ks" {
+				if id, isId := m.(*ast.Ident); isId && ksObj != nil && info.Uses[id] == ksObj {
 					usesKs = true
 				}
 				return true
@@ -389,7 +429,7 @@ func c09JWT(c *Ctx) {
 				okRet = false
 			}
 		}
-		c.Check(okRet && pk != nil, "R9.3", "key function returns only the selected keys", keyFunc.Pos(), "every non-nil key returned derives from ParseKeys", "a key not selected by ParseKeys can be returned")
+		c.Check(okRet && pk != nil, "R9.3", "key function returns only the selected keys", kfs.Pos(), "every non-nil key returned derives from ParseKeys", "a key not selected by ParseKeys can be returned")
 	}
 	// ParseKeys skips keys with a different alg
 	{
